@@ -102,6 +102,34 @@ def _ob_scaling(bi: int, wi: int) -> bool:
 
 
 # ---------------------------------------------------------------------------
+# 2a. the conversion factor does not depend on what was converted before: an earlier conversion
+#     between the same prefixes (either direction) at another power precedes the one under test.
+#     PART = (unit index, prefix index a)
+# ---------------------------------------------------------------------------
+def _ob_scaling_history(bi: int, wi: int, hw: int, swapped: bool) -> bool:
+    """
+    pre: 0 <= bi < NP
+    pre: 0 <= wi < 7
+    pre: 0 <= hw < 7
+    post: __return__
+    """
+    from nixio.util import units as U
+    ui, ai = PART
+    unit = UNITS[ui]
+    pa = PREFIXES[ai]
+    pb = _pick(PREFIXES, bi)
+    hpower = _pick(POWERS, hw)
+    if swapped:
+        U.scaling(pb + unit + hpower, pa + unit + hpower)
+    else:
+        U.scaling(pa + unit + hpower, pb + unit + hpower)
+    power = _pick(POWERS, wi)
+    p = int(power[1:]) if power else 1
+    want = (_factor(pa) / _factor(pb)) ** p
+    return _close(U.scaling(pa + unit + power, pb + unit + power), want, 1e-12)
+
+
+# ---------------------------------------------------------------------------
 # 2b. composition through a third prefix.  PART = (unit index, a index, b index)
 # ---------------------------------------------------------------------------
 def _ob_compose(ci: int, wi: int) -> bool:
@@ -250,6 +278,12 @@ OBLIGATIONS = [
                           "thorough": [(u, a) for u in _ALL_UNITS for a in range(NP)]},
        functions=[_U + "scalable", _U + "scaling", _U + "split"],
        outside="quick tier: 4 units incl. the prefix/unit collisions; thorough: all units"),
+    Ob("scaling_history_independent", _ob_scaling_history, timeout=600,
+       partition_by_tier={"quick": [(u, a) for u in _QUICK_UNITS[:2] for a in range(0, NP, 3)],
+                          "thorough": [(u, a) for u in _QUICK_UNITS[:4] for a in range(NP)]},
+       functions=[_U + "scaling", _U + "split"],
+       outside="the history is one earlier conversion between the same two prefixes (either direction) "
+               "of the same base unit at any power; 2 units x 7 prefixes (quick) / 4 units x 21 (thorough)"),
     Ob("scaling_composes", _ob_compose, timeout=150, tiers=("thorough",),
        partition=[(u, a, b) for u in _QUICK_UNITS[:3] for a in range(0, NP, 4) for b in range(1, NP, 5)],
        functions=[_U + "scaling"],
